@@ -50,6 +50,13 @@ func c11Gen(seed uint64, idx, total int, tier string) any {
 				ops = append(ops, "setlocal") // apply the most recent description that fits the state
 			}
 		}
+		if nt == 1 && c.Setup == "remote-offer" && r.Bool(0.4) {
+			// the answerer applies a provisional answer first, then creates the final one
+			ops = append(ops, "answer", "pranswer", "answer")
+			if r.Bool(0.5) {
+				ops = append(ops, "setlocal", "offer")
+			}
+		}
 		if nt == 1 && r.Bool(0.5) {
 			ops = append(ops, "offer", "offer")
 		}
@@ -139,9 +146,24 @@ func c11Run(t *testing.T, cj []byte, res *vfResult) {
 			ti, ops := ti, ops
 			s.Go(fmt.Sprintf("t%d", ti), func() {
 				for _, k := range ops {
+					if k == "pranswer" {
+						// the most recent answer, applied as a provisional one
+						mu.Lock()
+						var d *SessionDescription
+						for i := len(created) - 1; i >= 0 && d == nil; i-- {
+							if created[i].Type == SDPTypeAnswer {
+								d = &created[i]
+							}
+						}
+						mu.Unlock()
+						if d != nil && pc.SignalingState() == SignalingStateHaveRemoteOffer {
+							_ = pc.SetLocalDescription(SessionDescription{Type: SDPTypePranswer, SDP: d.SDP})
+						}
+						continue
+					}
 					if k == "setlocal" {
 						want := SDPTypeOffer
-						if pc.SignalingState() == SignalingStateHaveRemoteOffer {
+						if st := pc.SignalingState(); st == SignalingStateHaveRemoteOffer || st == SignalingStateHaveLocalPranswer {
 							want = SDPTypeAnswer
 						}
 						mu.Lock()
